@@ -4,7 +4,8 @@ import t2t, corr, semrun, sem
 
 OBLIGATIONS = ['Yalafi.C03_kinds', 'Yalafi.C03_removeLines_kinds', 'Yalafi.C03_comments_dropped', 'Yalafi.C03_comment_positions_outside',
                'Yalafi.C03_comments_dropped_current', 'Yalafi.C03_comments_example_current',
-               'Yalafi.C03_footnote_detached', 'Yalafi.C03_footnote_current']
+               'Yalafi.C03_footnote_detached', 'Yalafi.C03_footnote_current',
+               'Yalafi.C03_vanish_no_key']
 
 MARKUP = re.compile(r'\\[A-Za-z@]+')
 
